@@ -197,7 +197,7 @@ class Ast:
         return self.node('Attribute', style=self.enum('AttrStyle', 'Outer'), meta=self.enum('Meta', 'List', ml))
 
     def attr_doc(self, text):
-        nv = self.node('MetaNameValue', path=self.path([self.ident('doc')]), value=Obj('Opaque', None, ['expr', [('L', '"' + text + '"')]]))
+        nv = self.node('MetaNameValue', path=self.path([self.ident('doc')]), value=Obj('Opaque', None, ['expr', [('L', '"' + text + '"', 'input')]]))
         return self.node('Attribute', style=self.enum('AttrStyle', 'Outer'), meta=self.enum('Meta', 'NameValue', nv))
 
     def vis_inherited(self):
